@@ -532,3 +532,124 @@ Example t_stuck_p1 :
   let p := [ fn f_ [] i32 [SIf (IfS (CSingle (one tru)) (IBLoop []) None None); ret0] ] in
   check_program true p = Stuck /\ run p = RPanic PLoopLabel.
 Proof. both. Qed.
+
+(** ** 11. Small families, exhaustively (177 616 programs)
+
+    Every program of each family: the model terminates normally and the C14 monitor accepts
+    the specification's answer.  The families are products of small pools chosen so that each
+    position can hold a well-typed item, an item with each kind of violation, and items whose
+    violation depends on what precedes them (scopes, shadowing, mutability, return flags). *)
+Definition S1 : ast_ty := tS [(Id "a" 0 0, i32)].
+Definition prelude : program :=
+  [ TStructDecl (Id "S" 2 8) [(Id "a" 2 12, i32)];
+    TConst (Id "K" 3 7) i32 (lit 5);
+    fn g_ [(Id "a" 20 6, i32); (Id "b" 20 14, tbool)] i32 [ret0] ].
+Definition wrap (body : list stmt) : program :=
+  prelude ++ [ fn f_ [(Id "p" 10 6, i32); (Id "s" 10 14, S1)] i32 body ].
+
+Definition pool_exprs : list expr :=
+  [ one (num 1); one tru; one (var "p" 5 1); one (var "x" 5 2); one (var "K" 5 3);
+    one (EVField (Id "s" 5 4) (Id "a" 5 5)); one (EVField (Id "s" 5 6) (Id "z" 5 7));
+    one (EVField (Id "p" 5 8) (Id "a" 5 9)); one (EVField (Id "x" 5 10) (Id "a" 5 11));
+    one (EVCall (Id "g" 6 1) [one (num 1); one tru]);
+    one (EVCall (Id "g" 6 2) [one tru]);
+    one (EVCall (Id "g" 6 3) [one (var "x" 6 4)]);
+    one (EVCall (Id "g" 6 5) [one (num 1); one tru; one (var "x" 6 6)]);
+    one (EVCall (Id "h" 6 7) []);
+    Expr (num 1) [(OPlus, tru); (OMultiply, num 2)];
+    Expr (var "p" 7 1) [(OMultiply, num 1); (OPlus, var "x" 7 2)];
+    Expr (var "x" 7 3) [(OMinus, EVSub (Expr (var "p" 7 4) [(OPlus, var "K" 7 5)]));
+                        (OShiftLeft, num 1)];
+    one (extS [(Id "a" 0 0, i32)]); one (extS []) ].
+
+Definition pool_simple : list stmt :=
+  flat_map (fun e => [ SLet (Id "x" 8 1) true None e; SLet (Id "x" 8 2) false (Some i32) e;
+                       SLet (Id "s" 8 5) true None e;
+                       SBind (Id "x" 8 3) e; SBind (Id "p" 8 4) e; SRet e ]) pool_exprs
+  ++ [ SCall (Id "g" 9 1) [one (num 1)]; SCall (Id "h" 9 2) [] ].
+
+(** two function-level statements, then an expression statement as the return *)
+Definition fam_fn_level (f : program -> bool) : bool :=
+  forallb (fun s1 => forallb (fun s2 =>
+    f (wrap [s1; s2; SExprStmt (one (var "x" 30 1))])) pool_simple) pool_simple.
+Example t_fam_fn_level : fam_fn_level agrees = true.
+Proof. vm_compute. reflexivity. Qed.
+
+Definition pool_conds : list cond :=
+  [ CSingle (one tru); CSingle (one (var "x" 40 1));
+    CLogic (LC (one (var "x" 40 2)) CEq (one (num 1)) None);
+    CLogic (LC (one (var "p" 40 3)) CLess (one (num 1))
+               (Some (LAnd, LC (one (var "s" 40 4)) CEq (one (var "s" 40 5)) None)));
+    CLogic (LC (one (var "x" 40 6)) CEq (one (var "nope" 40 7)) None) ].
+Definition pool_small : list stmt :=
+  [ SLet (Id "x" 8 1) true None (one (num 1)); SLet (Id "x" 8 2) true None (one tru);
+    SLet (Id "y" 8 3) false (Some i32) (one (var "x" 8 4));
+    SBind (Id "x" 8 5) (one (num 2)); SBind (Id "x" 8 6) (one (var "y" 8 7));
+    SRet (one (var "x" 8 8)); SRet (one (num 1));
+    SCall (Id "g" 9 1) [one (var "x" 9 2); one tru] ].
+Definition pool_loopy : list stmt := pool_small ++ [SBreak; SContinue].
+
+(** if / else at function level: scopes of then / else, code after a nested return *)
+Definition fam_if_else (f : program -> bool) : bool :=
+  forallb (fun c => forallb (fun s0 => forallb (fun s1 => forallb (fun s2 => forallb (fun s3 =>
+    f (wrap [s0; SIf (IfS c (IBIf [s1; s2]) (Some (IBIf [s3; s2])) None); s3;
+             SRet (one (var "x" 50 1))]))
+    pool_small) pool_small) pool_small) pool_small) pool_conds.
+Example t_fam_if_else : fam_if_else agrees = true.
+Proof. vm_compute. reflexivity. Qed.
+
+(** a loop holding a loop-flavoured if / else-if / else: break, continue, all three flags *)
+Definition fam_loop (f : program -> bool) : bool :=
+  forallb (fun c => forallb (fun s0 => forallb (fun s1 => forallb (fun s2 => forallb (fun s3 =>
+    f (wrap [s0;
+             SLoop [s1;
+                    SIf (IfS c (IBLoop [s2; s3]) None
+                             (Some (IfS (CSingle (one (var "y" 51 1))) (IBLoop [s1; s3])
+                                        (Some (IBLoop [s2])) None)));
+                    s2];
+             s0; SRet (one (var "x" 50 1))]))
+    pool_loopy) pool_loopy) pool_loopy) pool_small) pool_conds.
+Example t_fam_loop : fam_loop agrees = true.
+Proof. vm_compute. reflexivity. Qed.
+
+(** chains of three operators: priorities, brackets, leaves with their own violations *)
+Definition pool_leaves : list expr_val :=
+  [ num 1; tru; var "p" 60 1; var "nope" 60 2; EVSub (Expr (num 1) [(OPlus, tru)]);
+    EVCall (Id "g" 60 3) [one (num 1); one tru] ].
+Definition pool_ops : list binop := [OPlus; OMultiply; OMinus; OAnd].
+Definition fam_chain (f : program -> bool) : bool :=
+  forallb (fun v0 => forallb (fun o1 => forallb (fun v1 => forallb (fun o2 => forallb (fun v2 =>
+    forallb (fun o3 => forallb (fun v3 =>
+      f (wrap [SRet (Expr v0 [(o1, v1); (o2, v2); (o3, v3)])]))
+    pool_leaves) pool_ops) pool_leaves) pool_ops) pool_leaves) pool_ops) pool_leaves.
+Example t_fam_chain : fam_chain agrees = true.
+Proof. vm_compute. reflexivity. Qed.
+
+(** four top-level items: the three passes, tables, R1..R6 in every order *)
+Definition cA := CConst (Id "A" 70 2).
+Definition cB := CConst (Id "B" 70 1).
+Definition c1 := CVal (PV PI32 1).
+Definition tQ : ast_ty := TStruct (Id "Q" 0 0) [].
+Definition pool_tops : list top :=
+  [ TStructDecl (Id "S" 71 1) []; TStructDecl (Id "Q" 71 2) [(Id "a" 71 3, tS [])];
+    TConst (Id "A" 72 1) i32 (CExpr c1 []);
+    TConst (Id "A" 72 2) (tS []) (CExpr cB []);
+    TConst (Id "B" 72 3) tQ (CExpr cA [(OPlus, cA); (OPlus, c1); (OPlus, cB)]);
+    TConst (Id "B" 72 4) i32 (CExpr c1 [(OPlus, cB)]);
+    TConst (Id "C" 72 5) i32 (CExpr cB [(OPlus, cA); (OPlus, cB)]);
+    fn (Id "f" 73 1) [] i32 [SRet (one (var "A" 73 2))];
+    fn (Id "f" 73 3) [(Id "a" 73 4, tS []); (Id "a" 73 5, tQ)] (tS []) [SRet (one (var "a" 73 6))];
+    fn (Id "h" 73 7) [(Id "a" 73 8, i32)] tQ [SRet (one (EVCall (Id "f" 73 9) []))];
+    fn (Id "k" 74 1) [(Id "a" 74 2, TStruct (Id "Z" 0 0) [])] i32 [SRet (one (var "B" 74 3))];
+    TImport [] ].
+Definition fam_decls (f : program -> bool) : bool :=
+  forallb (fun t1 => forallb (fun t2 => forallb (fun t3 => forallb (fun t4 =>
+    f [t1; t2; t3; t4]) pool_tops) pool_tops) pool_tops) pool_tops.
+Example t_fam_decls : fam_decls agrees = true.
+Proof. vm_compute. reflexivity. Qed.
+
+(** the intended rule set is at least as strict on all of them (an instance of
+    [RulesBasic.wf_implies_accepted_spec], here by computation) *)
+Example t_fam_decls_weaker :
+  fam_decls (fun p => implb (wf_b p) (accepted_spec_b p)) = true.
+Proof. vm_compute. reflexivity. Qed.
